@@ -17,6 +17,8 @@ Rules
 * assigning a place: a linear leaf that is still full is overwritten ("overwrite"); assigning
   a borrowed parameter itself is forbidden ("assign-borrowed");
 * an expression statement whose value is linear loses it ("dropped");
+* a projection `f(..)[k]` / `g(..).x` of an unnamed value evaluates the operand (its argument
+  uses count) and drops the other components ("dropped" if one of them is linear);
 * a conditional expression `a if c else b` evaluates c, then exactly one arm (two outcomes);
   its value is an unnamed value like a call result;
 * at every return: every linear leaf is empty except the leaves of borrowed parameters, and
@@ -45,11 +47,13 @@ def ty_of(e):
         return "bool"
     if k == "ifx":
         return ty_of(e[2])
+    if k == "proj":
+        return e[3]
     raise ValueError(e)
 
 
 def linear_ty(t):
-    return t in ("q", "t", "s")
+    return t in ("q", "t", "s", "tqi")
 
 
 class Spec:
@@ -94,6 +98,12 @@ class Spec:
         if k == "tup":
             for x in e[1]:
                 sts = self.eval(sts, x, "move")
+            return sts
+        if k == "proj":     # the operand is evaluated, one component kept, the others dropped
+            sts = self.eval(sts, e[1], "move")
+            if e[4] and sts:
+                self.note(Violation("dropped", "linear component of a projected unnamed value"))
+                return []
             return sts
         if k == "ifx":      # e1 if c else e2: the condition first, then exactly one arm
             sc = self.eval(sts, e[1], "move")
